@@ -134,10 +134,14 @@ def check_model(model, rec):
                 bad.add(name)
                 fails.append(Failure("%s|raises:%s" % (sig, A.exc_name(val)), "%s\n%s" % (sstr(val)[:300], text)))
                 continue
+            overflow_before = stats.get("int_overflow", 0)
             fs = A.compare(val, r, (model["rows"],), sig, stats=stats)
             compared_nodes += 1
             if fs:
                 bad.add(name)
+            if stats.get("int_overflow", 0) != overflow_before:
+                bad.add(name)  # whatever consumes a wrapped-around integer is not compared either
+                rec.exclude("integer_overflow_outside_domain")
             for f in fs:
                 f.detail = "%s: %s\n%s" % (name, f.detail, text)
             fails.extend(fs)
